@@ -218,7 +218,7 @@ def run(tier):
     if discarded:
         ck.inconclusive.append("%d batches were discarded by the model" % discarded)
     return ck.finish("every string of length <= 3 over {a, é, €, 😀} x every byte index / special index x index and "
-                     "slice, sequences of length <= 3, every string method over substring/index pools, String.from_* over "
+                     "slice, sequences of length <= 3 (values and freshness of slices), every string method over substring/index pools, String.from_* over "
                      "byte and code-point lists, escape forms; batched 400 checks per program, each compared with the "
                      "byte-level model; non-trivial = distinct check expression",
                      exhaustive=not quick)
